@@ -1,6 +1,7 @@
 import Kolibrie.Core.Proto
 import Kolibrie.Model.Syntax
 import Kolibrie.Driver.C16Scan
+import Kolibrie.Model.Arith
 /-
 Driver for C16.  Requests (after the keyword `parse`):
   scan <which> <hex input> <classes>      scanner-level differential (see Driver/C16Scan.lean)
@@ -13,6 +14,9 @@ Driver for C16.  Requests (after the keyword `parse`):
                                           GRAPH / WHERE braces, which the Lean printer does not produce)
   fuzz <hex text>                         totality: the real parsers return Ok/Err; Ok means everything consumed
   nest <kind> <n>                         n-fold nesting of one recursive construct (run in a child process)
+  arith <extra> <ws> <tree>               FILTER arithmetic: the tree (prefix code `+,-,*,/,o<hex operand>`) is printed with minimal
+                                          (extra=0) or redundant (extra=1) parentheses and parsed back; `ws` only drives the
+                                          harness' whitespace choices
 Reply: `M … | S … [| H …]`
 -/
 namespace Kolibrie.Driver.C16
@@ -148,6 +152,31 @@ def nestNeeds (kind : String) (n : Nat) : Option Nat :=
   | "quoted" => some (n + 1)     -- ?s ?p <<^n … >>^n
   | _ => none
 
+open Kolibrie.Arith in
+def decA : Nat → List String → Option (AExpr × List String)
+  | 0, _ => none
+  | f + 1, "+" :: rest => do let (a, r1) ← decA f rest; let (b, r2) ← decA f r1; pure (.add a b, r2)
+  | f + 1, "-" :: rest => do let (a, r1) ← decA f rest; let (b, r2) ← decA f r1; pure (.sub a b, r2)
+  | f + 1, "*" :: rest => do let (a, r1) ← decA f rest; let (b, r2) ← decA f r1; pure (.mul a b, r2)
+  | f + 1, "/" :: rest => do let (a, r1) ← decA f rest; let (b, r2) ← decA f r1; pure (.div a b, r2)
+  | _ + 1, x :: rest => if x.startsWith "o" then (unhex (x.drop 1).toString).map fun s => (.opnd s, rest) else none
+  | _ + 1, [] => none
+
+open Kolibrie.Arith in
+def encA : AExpr → List String
+  | .opnd s => ["o" ++ hex s]
+  | .add l r => "+" :: encA l ++ encA r
+  | .sub l r => "-" :: encA l ++ encA r
+  | .mul l r => "*" :: encA l ++ encA r
+  | .div l r => "/" :: encA l ++ encA r
+
+open Kolibrie.Arith in
+def tokText : Kolibrie.Arith.Tok → String
+  | .atom s => s
+  | .op c => String.singleton c
+  | .lp => "("
+  | .rp => ")"
+
 def handle (args : List String) : String :=
   match args with
   | "scan" :: rest => Kolibrie.Driver.C16Scan.handleScan rest
@@ -191,6 +220,17 @@ def handle (args : List String) : String :=
     match (splitOnChar items ',').mapM one with
     | some rs => let r := joinWith "," rs; "M " ++ r ++ " | S " ++ r
     | none => "bad-request"
+  | ["arith", extra, _ws, tree] =>
+    let codes := splitOnChar tree ','
+    match decA (codes.length + 1) codes with
+    | some (t, []) =>
+      let toks := Kolibrie.Arith.printA (extra == "1") t
+      let h := "h=" ++ toString (fnv (joinWith " " (toks.map tokText)))
+      let m := match Kolibrie.Arith.parseA toks with
+        | some t' => joinWith "," (encA t')
+        | none => "err"
+      "M " ++ h ++ " " ++ m ++ " | S " ++ h ++ " " ++ joinWith "," (encA t)
+    | _ => "bad-request"
   | ["nest", kind, n] =>
     match n.toNat?.bind (nestNeeds kind) with
     | some need =>
